@@ -119,6 +119,9 @@ func zzC10New(methodSymbolic bool) *zzC10World {
 		w.c3.RotatedSecrets = [][]byte{zzC10Hash(w.f, w.rot3)}
 	}
 	w.store.clients["c1"], w.store.clients["c2"], w.store.clients["c3"] = w.c1, w.c2, w.c3
+	// c4: a confidential client with NO secret on file (e.g. one that only uses private_key_jwt):
+	// no presented secret can prove knowledge of anything, matches() is false for it
+	w.store.clients["c4"] = &DefaultClient{ID: "c4"}
 	return w
 }
 
